@@ -1,13 +1,395 @@
 import SfxModel.TextSpec
 /-
-  Display.lean — model of `src/display.rs` (`fmt_dec`, `fmt_radix2`, digit generation, rounding/trimming, padding).
+  Display.lean — executable model of `src/display.rs` lines 1-505 (`fmt_dec`, `fmt_radix2`, digit generation,
+  rounding/trimming, padding), function by function.
+
+  Conventions
+  * An unsigned primitive of `w` bits (`w ∈ {8,16,32,64,128}`) is the `Nat < 2^w` it denotes; bytes are `Nat < 256`.
+  * `Buffer.data` is the 130-byte array of the Rust `Buffer`: digit *values* (0..15) and the byte `'.'` (46) until
+    `encode_digits` turns the digits into ASCII.
+  * `Outcome`: `.panic` where an index / slice bound check or an `unwrap` fails in every profile; the `dbg` flag where a
+    `debug_assert!`, an unchecked `+ - * << >>` on the executed path would fire in a checking build.  Arithmetic that
+    visibly cannot overflow is done on `Nat` directly, with a comment saying why.
+  * `usize` is 64 bits (the harness target); `u32` values (`nbits`, digit counts) are far below `2^32`.
+  * The `Formatter` accessors are read off the `FmtSpec`: `sign_plus() = plus`, `alternate() = alt`,
+    `sign_aware_zero_pad() = zero`, `width() = width`, `precision() = prec`, `align() = align` (`None` when no alignment
+    was written), `fill() = fill` or `' '` when none was written (the `0` flag does not change `fill()`).
+    (`format_args!` itself rejects widths / precisions above `u16::MAX` before `fmt_dec` is entered; not modelled here.)
 -/
 namespace Sfx
 namespace Display
+open TextSpec (FmtSpec)
 
-/-- STUB — replaced by the model: the bytes written for `(neg, abs)` of an unsigned primitive of `nbits` bits with `fracN`
-fractional bits under a format spec -/
-def fmt (_spec : TextSpec.FmtSpec) (_neg : Bool) (_abs : Nat) (_nbits _fracN : Nat) : Option (Outcome (List Nat)) := none
+/-! ### small primitives -/
+
+/-- `usize` arithmetic (64-bit target): unchecked `a + b`, `a - b` -/
+def usizeAdd (a b : Nat) : Outcome Nat := .ok ((a + b) % 2 ^ 64) (decide (2 ^ 64 ≤ a + b))
+def usizeSub (a b : Nat) : Outcome Nat := .ok ((a + 2 ^ 64 - b % 2 ^ 64) % 2 ^ 64) (decide (a < b))
+
+/-- `x >> k` / `x << k` on a `w`-bit unsigned primitive with a run-time amount: an amount `≥ w` fires the overflow check
+and is masked to `k % w` without checks -/
+def shrU (w x k : Nat) : Outcome Nat := .ok (x >>> (k % w)) (decide (w ≤ k))
+def shlU (w x k : Nat) : Outcome Nat := .ok ((x <<< (k % w)) % 2 ^ w) (decide (w ≤ k))
+
+/-- `U::NBITS - x.leading_zeros()` (`leading_zeros ≤ NBITS`, the subtraction cannot underflow) -/
+def usedBitsHi (x : Nat) : Nat := bitLen x
+/-- `x.trailing_zeros()` of a `w`-bit primitive (`w` for zero) -/
+def trailingZerosU (w x : Nat) : Nat := if x = 0 then w else trailingZerosNat w x
+/-- `U::NBITS - x.trailing_zeros()` (`trailing_zeros ≤ NBITS`, cannot underflow) -/
+def usedBitsLo (w x : Nat) : Nat := w - trailingZerosU w x
+
+/-- `U::MSB` -/
+def msb (w : Nat) : Nat := 2 ^ (w - 1)
+
+/-- bounds check of `&data[b..e]` on the 130-byte array -/
+def sliceChk (b e : Nat) : Outcome Unit := if b ≤ e ∧ e ≤ 130 then pure () else .panic
+/-- `data[i]` -/
+def idx (data : Array Nat) (i : Nat) : Outcome Nat :=
+  match data[i]? with
+  | some v => pure v
+  | none => .panic
+
+/-! ### `Radix` -/
+
+inductive Radix where
+  | bin | oct | lowHex | upHex | dec
+deriving DecidableEq, Repr
+
+/-- `Radix::digit_bits` -/
+def Radix.digitBits : Radix → Nat
+  | .bin => 1 | .oct => 3 | .lowHex => 4 | .upHex => 4 | .dec => 4
+/-- `Radix::max` -/
+def Radix.max : Radix → Nat
+  | .bin => 1 | .oct => 7 | .lowHex => 15 | .upHex => 15 | .dec => 9
+/-- `Radix::prefix` (bytes of `"0b"`, `"0o"`, `"0x"`, `"0x"`, `""`) -/
+def Radix.prefix : Radix → List Nat
+  | .bin => [48, 98] | .oct => [48, 111] | .lowHex => [48, 120] | .upHex => [48, 120] | .dec => []
+
+/-! ### `ceil_log10_2_times`, `Mul10` -/
+
+/-- `ceil_log10_2_times`: `int_bits < 2^32` so the `u64` product is `< 2^63` and `+ 0xFFFF_FFFF` cannot overflow;
+`as u32` reduces the shifted value (which is `< 2^31` anyway) -/
+def ceilLog10_2Times (intBits : Nat) : Outcome Nat := do
+  Outcome.dassert (decide (intBits < 112816))
+  pure (((intBits * 0x4D104D43 + 0xFFFFFFFF) >>> 32) % 2 ^ 32)
+
+/-- `mul10_widen!`: `Mul10::mul10_assign` for `u8 … u64`: `(new self, returned digit)`.  The product is formed in the
+double-width type (`< 10 · 2^w`, no overflow), `as $Single` truncates, `(prod >> NBITS) as u8` is the carry (`≤ 9` for
+any input, so the wrap is silent by construction). -/
+def mul10Widen (w self : Nat) : Nat × Nat :=
+  let prod := self * 10
+  (prod % 2 ^ w, (prod >>> w) % 256)
+
+/-- `impl Mul10 for u128`: the two-limb version.  `hi`, `lo` are `< 10 · 2^64` (no overflow in `u128`), the limb addition
+is an explicit `overflowing_add`, `hi_hi as u8 + u8::from(overflow) ≤ 9 + 1`. -/
+def mul10U128 (self : Nat) : Nat × Nat :=
+  let loMask := 2 ^ 64 - 1
+  let hi := (self >>> 64) * 10
+  let lo := (self &&& loMask) * 10
+  let hiLo := hi % 2 ^ 64
+  let hiHi := (hi >>> 64) % 2 ^ 64
+  let loLo := lo % 2 ^ 64
+  let loHi := (lo >>> 64) % 2 ^ 64
+  let wrapped := (hiLo + loHi) % 2 ^ 64
+  let overflow := decide (2 ^ 64 ≤ hiLo + loHi)
+  ((wrapped <<< 64) ||| loLo, hiHi % 256 + (if overflow then 1 else 0))
+
+/-- `Mul10::mul10_assign` on the `w`-bit primitive: `(new self, returned digit)` -/
+def mul10 (w self : Nat) : Nat × Nat := if w = 128 then mul10U128 self else mul10Widen w self
+
+/-! ### `Buffer` -/
+
+structure Buffer where
+  intDigits : Nat
+  fracDigits : Nat
+  data : Array Nat
+deriving Repr
+
+/-- `Buffer::new` -/
+def Buffer.new : Buffer := { intDigits := 0, fracDigits := 0, data := Array.replicate 130 0 }
+
+/-- `Buffer::set_len`.  The `u32` sum cannot overflow (both counts are `≤ 128`); the `assert!` is a real panic and so is
+the index `1 + int_digits` if it were `≥ 130`. -/
+def Buffer.setLen (buf : Buffer) (intDigits fracDigits : Nat) : Outcome Buffer :=
+  if ¬ (intDigits + fracDigits < 130) then .panic
+  else if ¬ (1 + intDigits < buf.data.size) then .panic
+  else pure { intDigits := intDigits, fracDigits := fracDigits, data := buf.data.setIfInBounds (1 + intDigits) 46 }
+
+/-- `Buffer::int`: the bounds `(begin, end)` of the slice, after its bounds check -/
+def Buffer.int (buf : Buffer) : Outcome (Nat × Nat) := do
+  let b := 1
+  let e := b + buf.intDigits
+  sliceChk b e
+  pure (b, e)
+
+/-- `Buffer::frac`: the bounds `(begin, end)` of the slice, after its bounds check -/
+def Buffer.frac (buf : Buffer) : Outcome (Nat × Nat) := do
+  let b := 1 + buf.intDigits + 1
+  let e := b + buf.fracDigits
+  sliceChk b e
+  pure (b, e)
+
+/-- the round-up loop of `round_and_trim`: `for b in self.data[0..len].iter_mut().rev()`; `k` elements are left, the
+current one is `data[k-1]`.  State: data, `frac_digits`, debug flag (`debug_assert!(self.frac_digits == 0)` at the point).
+`*b += 1` cannot overflow (`*b < max ≤ 15`); `frac_digits -= 1` is guarded. -/
+def roundUpLoop (max : Nat) : Nat → Array Nat → Nat → Bool → Array Nat × Nat × Bool
+  | 0, data, fd, dbg => (data, fd, dbg)
+  | k + 1, data, fd, dbg =>
+    let b := data.getD k 0
+    if b < max then (data.setIfInBounds k (b + 1), fd, dbg)
+    else if b = 46 then roundUpLoop max k data fd (dbg || fd != 0)
+    else roundUpLoop max k (data.setIfInBounds k 0) (if fd > 0 then fd - 1 else fd) dbg
+
+/-- the trim loop of `round_and_trim`: number of trailing zero digits of `data[begin .. begin + k]` -/
+def trimCount (begin : Nat) : Nat → Array Nat → Nat
+  | 0, _ => 0
+  | k + 1, data => if data.getD (begin + k) 0 != 0 then 0 else 1 + trimCount begin k data
+
+/-- `Buffer::round_and_trim` -/
+def Buffer.roundAndTrim (buf : Buffer) (max : Nat) (fracRemCmpMsb : Ordering) : Outcome Buffer := do
+  -- at most 128 + 2, no `usize` overflow
+  let len := if buf.fracDigits > 0 then buf.intDigits + buf.fracDigits + 2 else buf.intDigits + 1
+  -- `a || b && c` with short-circuit evaluation: `data[len - 1]` is only read on a tie (`len ≥ 1`)
+  let roundUp ←
+    if fracRemCmpMsb == .gt then pure true
+    else if fracRemCmpMsb == .eq then do
+      let last ← idx buf.data (len - 1)
+      pure (last % 2 == 1)
+    else pure false
+  if roundUp then do
+    sliceChk 0 len
+    let (data, fd, dbg) := roundUpLoop max len buf.data buf.fracDigits false
+    Outcome.dbgIf dbg
+    pure { buf with data := data, fracDigits := fd }
+  else do
+    let (b, e) ← buf.frac
+    let trim := trimCount b (e - b) buf.data
+    -- `trim ≤ frac_digits` (it counts elements of the slice)
+    pure { buf with fracDigits := buf.fracDigits - trim }
+
+/-- one element of the `encode_digits` loop -/
+def encodeDigit (upper : Bool) (d : Nat) : Nat :=
+  -- `b'0' = 48`, `b'A' - 10 = 55`, `b'a' - 10 = 87`; results `≤ 102`, no `u8` overflow
+  if d < 10 then d + 48 else if d < 16 then d + (if upper then 55 else 87) else d
+
+/-- the `encode_digits` loop over `data[..k]` -/
+def encodeLoop (upper : Bool) : Nat → Array Nat → Array Nat
+  | 0, data => data
+  | k + 1, data => encodeLoop upper k (data.setIfInBounds k (encodeDigit upper (data.getD k 0)))
+
+/-- `Buffer::encode_digits` -/
+def Buffer.encodeDigits (buf : Buffer) (upper : Bool) : Outcome Buffer := do
+  let e := buf.intDigits + buf.fracDigits + 2
+  sliceChk 0 e
+  pure { buf with data := encodeLoop upper e buf.data }
+
+/-- `Buffer::pad_and_print`: the bytes written to the formatter -/
+def Buffer.padAndPrint (buf : Buffer) (isNeg : Bool) (maybePrefix : List Nat) (spec : FmtSpec) : Outcome (List Nat) := do
+  let sign : List Nat := if isNeg then [45] else if spec.plus then [43] else []
+  let pfx : List Nat := if spec.alt then maybePrefix else []
+  let d0 ← idx buf.data 0
+  let absBegin ←
+    if d0 != 48 then pure 0
+    else do
+      let d1 ← idx buf.data 1
+      pure (if d1 == 46 then 0 else if d1 == 48 then 2 else 1)
+  -- `fmt.precision().map(|x| x - self.frac_digits).unwrap_or(0)`: unchecked `usize` subtraction
+  let endZeros ← match spec.prec with
+    | some x => usizeSub x buf.fracDigits
+    | none => pure 0
+  -- sums of small numbers, no overflow
+  let absEnd :=
+    if buf.fracDigits > 0 then buf.intDigits + buf.fracDigits + 2
+    else if endZeros > 0 then buf.intDigits + 2
+    else buf.intDigits + 1
+  -- `sign.len() + prefix.len() + abs_end - abs_begin + end_zeros`, left to right, unchecked
+  let r ← usizeAdd sign.length pfx.length
+  let r ← usizeAdd r absEnd
+  let r ← usizeSub r absBegin
+  let reqWidth ← usizeAdd r endZeros
+  -- `fmt.width().and_then(|w| w.checked_sub(req_width)).unwrap_or(0)`
+  let pad := match spec.width with
+    | some w => if reqWidth ≤ w then w - reqWidth else 0
+    | none => 0
+  let (padLeft, padZeros, padRight) : Nat × Nat × Nat :=
+    if spec.zero then (0, pad, 0)
+    else match spec.align with
+      | some '<' => (0, 0, pad)
+      | some '^' => (pad / 2, 0, pad - pad / 2)       -- `pad / 2 ≤ pad`
+      | _ => (pad, 0, 0)
+  let fill : List Nat := spec.fill.getD [32]
+  -- `&self.data[abs_begin..abs_end]`, then `str::from_utf8(..).unwrap()`: the bytes are encoded digits and `'.'`, all
+  -- `< 128`, and ASCII is always valid UTF-8; a byte `≥ 128` (which cannot occur) is counted as a failed `unwrap`
+  sliceChk absBegin absEnd
+  let body := (buf.data.toList.take absEnd).drop absBegin
+  if body.any (· ≥ 128) then .panic else
+  pure ((List.replicate padLeft fill).flatten ++ sign ++ pfx ++ List.replicate padZeros 48 ++ body
+        ++ List.replicate endZeros 48 ++ (List.replicate padRight fill).flatten)
+
+/-- `Buffer::finish` -/
+def Buffer.finish (buf : Buffer) (radix : Radix) (isNeg : Bool) (fracRemCmpMsb : Ordering) (spec : FmtSpec) :
+    Outcome (List Nat) := do
+  let buf ← buf.roundAndTrim radix.max fracRemCmpMsb
+  let buf ← buf.encodeDigits (radix == .upHex)
+  buf.padAndPrint isNeg radix.prefix spec
+
+/-! ### `FmtHelper` (`impl_radix_helper!`) on a `w`-bit primitive; `$attempt_half` is `w > 8`, `$H` has `w / 2` bits -/
+
+/-- the loop of `write_int`: `for b in buf.int().iter_mut().rev()`; `k` elements left, the current one is `begin + k - 1`.
+`self >>= digit_bits` has `digit_bits ≤ 4 < NBITS`. -/
+def writeIntLoop (digitBits mask begin : Nat) : Nat → Array Nat → Nat → Bool → Array Nat × Nat × Bool
+  | 0, data, self, dbg => (data, self, dbg)
+  | k + 1, data, self, dbg =>
+    writeIntLoop digitBits mask begin k (data.setIfInBounds (begin + k) ((self % 256) &&& mask)) (self >>> digitBits)
+      (dbg || self == 0)    -- `debug_assert!(self != 0)`
+
+/-- `FmtHelper::write_int` -/
+def writeInt (w self : Nat) (radix : Radix) (nbits : Nat) (buf : Buffer) : Outcome Buffer :=
+  if h : 8 < w ∧ nbits < w / 2 then
+    writeInt (w / 2) (self % 2 ^ (w / 2)) radix nbits buf          -- `(self as $H).write_int(..)`
+  else do
+    let (b, e) ← buf.int
+    let (data, self', dbg) := writeIntLoop radix.digitBits radix.max b (e - b) buf.data self false
+    Outcome.dbgIf dbg
+    Outcome.dassert (self' == 0)
+    pure { buf with data := data }
+termination_by w
+decreasing_by omega
+
+/-- the loop of `write_frac`: `for b in buf.frac().iter_mut()`; `k` elements left, the current one is `begin + i`.
+`NBITS - digit_bits` and the shifts by it / by `digit_bits` are in range. -/
+def writeFracLoop (w digitBits begin : Nat) : Nat → Nat → Array Nat → Nat → Bool → Array Nat × Nat × Bool
+  | 0, _, data, self, dbg => (data, self, dbg)
+  | k + 1, i, data, self, dbg =>
+    writeFracLoop w digitBits begin k (i + 1) (data.setIfInBounds (begin + i) ((self >>> (w - digitBits)) % 256))
+      ((self <<< digitBits) % 2 ^ w) (dbg || self == 0)    -- `debug_assert!(self != 0)`
+
+/-- `FmtHelper::write_frac`: the buffer and `self.cmp(&$U::MSB)` -/
+def writeFrac (w self : Nat) (radix : Radix) (nbits : Nat) (buf : Buffer) : Outcome (Buffer × Ordering) :=
+  if h : 8 < w ∧ nbits < w / 2 then
+    writeFrac (w / 2) ((self >>> (w / 2)) % 2 ^ (w / 2)) radix nbits buf    -- `((self >> (NBITS / 2)) as $H).write_frac(..)`
+  else do
+    let (b, e) ← buf.frac
+    let (data, self', dbg) := writeFracLoop w radix.digitBits b (e - b) 0 buf.data self false
+    Outcome.dbgIf dbg
+    pure ({ buf with data := data }, compare self' (msb w))
+termination_by w
+decreasing_by omega
+
+/-- the loop of `write_int_dec`; `k` elements left, the current one is `begin + k - 1` -/
+def writeIntDecLoop (begin : Nat) : Nat → Array Nat → Nat → Array Nat × Nat
+  | 0, data, self => (data, self)
+  | k + 1, data, self => writeIntDecLoop begin k (data.setIfInBounds (begin + k) ((self % 10) % 256)) (self / 10)
+
+/-- `FmtHelper::write_int_dec` -/
+def writeIntDec (w self : Nat) (nbits : Nat) (buf : Buffer) : Outcome Buffer :=
+  if h : 8 < w ∧ nbits < w / 2 then
+    writeIntDec (w / 2) (self % 2 ^ (w / 2)) nbits buf           -- `(self as $H).write_int_dec(..)`
+  else do
+    let (b, e) ← buf.int
+    let (data, self') := writeIntDecLoop b (e - b) buf.data self
+    Outcome.dassert (self' == 0)
+    pure { buf with data := data }
+termination_by w
+decreasing_by omega
+
+/-- the loop of `write_frac_dec`: `for (i, b) in buf.frac().iter_mut().enumerate()`; `k` elements left, the current one
+is `begin + i`.  Returns data, `self` and `trim_to`.
+`tie.mul10_assign()` wraps silently (the carry digit is dropped); `tie += 5` happens in the first iteration only, on
+`tie = 0 · 10`, so it cannot overflow. -/
+def writeFracDecLoop (w : Nat) (autoPrec : Bool) (begin : Nat) :
+    Nat → Nat → Array Nat → Nat → Nat → Bool → Array Nat × Nat × Option Nat
+  | 0, _, data, self, _, _ => (data, self, none)
+  | k + 1, i, data, self, tie, add5 =>
+    let (self, d) := mul10 w self
+    let data := data.setIfInBounds (begin + i) d
+    if autoPrec then
+      let tie := (mul10 w tie).1
+      let tie := if add5 then tie + 5 else tie
+      let negSelf := (2 ^ w - self) % 2 ^ w                       -- `self.wrapping_neg()`
+      if self < tie || negSelf < tie then (data, self, some (i + 1))
+      else writeFracDecLoop w autoPrec begin k (i + 1) data self tie false
+    else writeFracDecLoop w autoPrec begin k (i + 1) data self tie add5
+
+/-- `FmtHelper::write_frac_dec`: the buffer and `self.cmp(&$U::MSB)` -/
+def writeFracDec (w self : Nat) (nbits : Nat) (autoPrec : Bool) (buf : Buffer) : Outcome (Buffer × Ordering) :=
+  if h : 8 < w ∧ nbits < w / 2 then
+    writeFracDec (w / 2) ((self >>> (w / 2)) % 2 ^ (w / 2)) nbits autoPrec buf   -- `((self >> (NBITS / 2)) as $H)…`
+  else do
+    -- `add_5` is to add rounding when all bits are used
+    let (tie, add5) ← (if nbits = w then pure (0, true) else do
+      let t ← shrU w (msb w) nbits       -- `$U::MSB >> nbits`
+      pure (t, false) : Outcome (Nat × Bool))
+    let (b, e) ← buf.frac
+    let (data, self', trimTo) := writeFracDecLoop w autoPrec b (e - b) 0 buf.data self tie add5
+    let fd := match trimTo with
+      | some t => t
+      | none => buf.fracDigits
+    pure ({ buf with data := data, fracDigits := fd }, compare self' (msb w))
+termination_by w
+decreasing_by omega
+
+/-! ### `fmt_dec`, `fmt_radix2` -/
+
+/-- the common prologue of `fmt_dec` / `fmt_radix2`: `(int, frac)`.  `frac_nbits` is a `u32`; in the third branch the
+shift amounts are checked (`frac_nbits > NBITS` would fire). -/
+def splitIntFrac (w abs fracN : Nat) : Outcome (Nat × Nat) :=
+  if fracN = 0 then pure (abs, 0)
+  else if fracN = w then pure (0, abs)
+  else do
+    let i ← shrU w abs fracN
+    Outcome.dbgIf (decide (w < fracN))                       -- `U::NBITS - frac_nbits`
+    let k := (w + 2 ^ 32 - fracN % 2 ^ 32) % 2 ^ 32
+    let f ← shlU w abs k
+    pure (i, f)
+
+/-- `fmt_dec` -/
+def fmtDec (w : Nat) (neg : Bool) (abs : Nat) (fracN : Nat) (spec : FmtSpec) : Outcome (List Nat) := do
+  let (int, frac) ← splitIntFrac w abs fracN
+  let intUsedNbits := usedBitsHi int
+  let intDigits ← ceilLog10_2Times intUsedNbits
+  let fracUsedNbits := usedBitsLo w frac
+  let (fracDigits, autoPrec) ← (match spec.prec with
+    -- `cmp::min(frac_used_nbits as usize, precision) as u32`: at most 128
+    | some precision => pure (Nat.min fracUsedNbits precision, false)
+    | none => do
+      let d ← ceilLog10_2Times fracN
+      pure (d, true) : Outcome (Nat × Bool))
+  let buf ← Buffer.new.setLen intDigits fracDigits
+  let buf ← writeIntDec w int intUsedNbits buf
+  let (buf, fracRemCmpMsb) ← writeFracDec w frac fracN autoPrec buf
+  buf.finish .dec neg fracRemCmpMsb spec
+
+/-- `fmt_radix2` -/
+def fmtRadix2 (w : Nat) (neg : Bool) (abs : Nat) (fracN : Nat) (radix : Radix) (spec : FmtSpec) : Outcome (List Nat) := do
+  let (int, frac) ← splitIntFrac w abs fracN
+  let digitBits := radix.digitBits
+  let intUsedNbits := usedBitsHi int
+  -- `u32` sums `≤ 128 + 3`
+  let intDigits := (intUsedNbits + digitBits - 1) / digitBits
+  let fracUsedNbits := usedBitsLo w frac
+  let fracDigits := (fracUsedNbits + digitBits - 1) / digitBits
+  let fracDigits := match spec.prec with
+    | some precision => Nat.min fracDigits precision
+    | none => fracDigits
+  let buf ← Buffer.new.setLen intDigits fracDigits
+  let buf ← writeInt w int radix intUsedNbits buf
+  let (buf, fracRemCmpMsb) ← writeFrac w frac radix fracUsedNbits buf
+  buf.finish radix neg fracRemCmpMsb spec
+
+/-- The bytes written for `(neg, abs)` of an unsigned primitive of `nbits` bits with `fracN` fractional bits under a
+format spec: `fmt_dec` for `Display` ("d") / `Debug` ("D"), `fmt_radix2` for "b" "o" "x" "X" (`impl_fmt!`).
+`none`: no such instance (unknown kind or primitive width). -/
+def fmt (spec : TextSpec.FmtSpec) (neg : Bool) (abs : Nat) (nbits fracN : Nat) : Option (Outcome (List Nat)) :=
+  if ¬ (nbits = 8 ∨ nbits = 16 ∨ nbits = 32 ∨ nbits = 64 ∨ nbits = 128) then none else
+  let abs := abs % 2 ^ nbits
+  match spec.kind with
+  | "d" | "D" => some (fmtDec nbits neg abs fracN spec)
+  | "b" => some (fmtRadix2 nbits neg abs fracN .bin spec)
+  | "o" => some (fmtRadix2 nbits neg abs fracN .oct spec)
+  | "x" => some (fmtRadix2 nbits neg abs fracN .lowHex spec)
+  | "X" => some (fmtRadix2 nbits neg abs fracN .upHex spec)
+  | _ => none
 
 end Display
 end Sfx
